@@ -130,30 +130,33 @@ Print Assumptions c02_everything_lost_still_drains.
 
 (* 12. the link invariant is not an assumption about "nice" states: it holds in EVERY reachable state of the
        two-endpoint system (proofs/LiveReach.v) whose network may lose, duplicate, delay and reorder every DATA
-       chunk and every SACK arbitrarily: new chunks are sent at any time, T3 expires at any time, a copy of any
+       chunk and every SACK arbitrarily: messages are written and chunks sent at any time, T3 expires at any time, a copy of any
        chunk that is or was in flight arrives at any time, a copy of any SACK ever emitted arrives at any time.
        lev_ok only asks what the property itself assumes: chunks of at most one MTU, fewer than 2^30 chunks in
        flight, packets not older than 2^30 TSNs. *)
 Theorem c02_invariant_in_every_reachable_state : forall s K m evs,
-  Sl s K -> st_infl s = [] -> 1 <= m < 2147483584 -> 0 < st_mtu s ->
-  let y0 := mkLs (mkLv s (rpq_init (rpq_new m) (wrap32 K))) K (mkGhost K [] []) [] in
+  Sl s K -> st_infl s = [] -> 1 <= m < 2147483584 -> 0 < st_mtu s -> BI s [] ->
+  let y0 := mkLs (mkLv s (rpq_init (rpq_new m) (wrap32 K))) K (mkGhost K [] []) [] [] in
   lrun_ok y0 evs -> SysInv K (lrun y0 evs).
-Proof. intros s K m evs SL Ee Hm Hmtu y0 Hok. exact (lrun_inv K evs y0 (SysInv_init s K m SL Ee Hm Hmtu) Hok). Qed.
+Proof. intros s K m evs SL Ee Hm Hmtu HB y0 Hok. exact (lrun_inv K evs y0 (SysInv_init s K m SL Ee Hm Hmtu HB) Hok). Qed.
 Print Assumptions c02_invariant_in_every_reachable_state.
 
 (* 13. no permanent stall: after ANY such history, a fault-free suffix of at most n retransmission rounds (n =
-       chunks in flight; each round is at most one RTO, bounded by RTO.max: C19) leaves nothing in flight and the
-       ack point at the highest TSN sent.  Remaining gap to the property text: the wall-clock bound itself, and
+       chunks in flight; each round is at most one RTO, bounded by RTO.max: C19) leaves nothing in flight, the ack
+       point at the highest TSN sent, the in-flight byte counter at 0 and every stream's buffered amount equal to
+       the bytes still waiting in the pending queue (0 when everything written has been sent).  Remaining gap to the property text: the wall-clock bound itself, and
        data still in the pending queue (c02_pending_progress moves it once nothing is in flight). *)
 Theorem c02_every_reachable_state_drains : forall gate credit arwnd s K m evs,
-  Sl s K -> st_infl s = [] -> 1 <= m < 2147483584 -> 0 < st_mtu s ->
-  let y0 := mkLs (mkLv s (rpq_init (rpq_new m) (wrap32 K))) K (mkGhost K [] []) [] in
+  Sl s K -> st_infl s = [] -> 1 <= m < 2147483584 -> 0 < st_mtu s -> BI s [] ->
+  let y0 := mkLs (mkLv s (rpq_init (rpq_new m) (wrap32 K))) K (mkGhost K [] []) [] [] in
   lrun_ok y0 evs ->
   let y := lrun y0 evs in
   (forall x, 0 <= x <= st_mtu (lv_s (ls_st y)) -> gate x = true) -> 0 < credit 0 ->
   exists r st', (r <= length (st_infl (lv_s (ls_st y))))%nat /\
     lv_rounds r gate credit arwnd (ls_st y) = Some st' /\ st_infl (lv_s st') = [] /\
-    st_cum (lv_s st') = wrap32 (ls_K y + ls_n y).
+    st_cum (lv_s st') = wrap32 (ls_K y + ls_n y) /\
+    st_nbytes (lv_s st') = 0 /\
+    (forall k, In k (map fst (st_buffered (lv_s st'))) -> lookup (st_buffered (lv_s st')) k = lookup (ls_pend y) k).
 Proof. exact reachable_state_drains. Qed.
 Print Assumptions c02_every_reachable_state_drains.
 
@@ -162,15 +165,15 @@ Print Assumptions c02_every_reachable_state_drains.
 Example c02_example_reachable_run :
   let K := 4294967294 in
   let s0 := mkS c_established (wrap32 K) 0 [] 0 4380 100000 100000 0 false 0 false 1200 0 0 0 0 [(1, 0)] in
-  let y0 := mkLs (mkLv s0 (rpq_init (rpq_new 2000) (wrap32 K))) K (mkGhost K [] []) [] in
-  let evs := [LSend 1 1000; LSend 1 1000; LSend 1 500; LData 1 50000; LSack 0 90000; LT3; LData 2 50000;
+  let y0 := mkLs (mkLv s0 (rpq_init (rpq_new 2000) (wrap32 K))) K (mkGhost K [] []) [] [] in
+  let evs := [LWrite 1 [1000; 1000; 500]; LSend 1 1000; LSend 1 1000; LSend 1 500; LData 1 50000; LSack 0 90000; LT3; LData 2 50000;
               LData 0 50000; LSack 2 90000; LSack 0 90000; LData (-1) 50000] in
   lrun_ok y0 evs /\
   map (fun n => let y := lrun y0 (firstn n evs) in (st_cum (lv_s (ls_st y)), length (st_infl (lv_s (ls_st y))), gK (ls_g y)))
-      [3; 5; 8; 9; 11]%nat =
+      [4; 6; 9; 10; 12]%nat =
   [(4294967294, 3%nat, 4294967294); (4294967294, 3%nat, 4294967294); (4294967294, 3%nat, 4294967297);
    (1, 0%nat, 4294967297); (1, 0%nat, 4294967297)].
-Proof. vm_compute. repeat split; first [reflexivity | discriminate]. Qed.
+Proof. vm_compute. repeat split; first [discriminate | repeat constructor]. Qed.
 
 (* the SACK half on its own: a SACK that lies inside what is in flight is never rejected by handleSack, moves
    the ack point exactly there and pops exactly the acknowledged prefix *)
